@@ -292,6 +292,31 @@ example : convert .int64 .double (.int 9007199254740993) = some (.flt (.fin fals
     dist (4503599627370497 * 2 ^ 1) 9007199254740993 = 1 := by decide
 
 
+/-- **Unconditional form** (every integer of every integer type, every float target): the result
+of the implicit conversion is a finite float `±mant·2^q` with the sign of `x`, and either it IS `x`
+(`q ≤ 0`, `mant = |x|·2^(−q)`), or `q > 0` and no value with at most `P` significant bits — integer
+valued, fractional, or (last conjunct: the distance is at most `|x|`, an opposite-sign or zero value
+is at distance ≥ `|x|`) of the other sign — is nearer to `x`. -/
+theorem convert_int_to_float_nearest_total (s d : NT) (x : Int) (r : Val) (hs : s.isInt = true)
+    (hd : d.isFloat = true) (hx : inRange s x) (h : convert s d (.int x) = some r) :
+    ∃ (mant : Nat) (q : Int), r = .flt (.fin (decide (x < 0)) mant q) ∧
+      ((q ≤ 0 ∧ mant = x.natAbs * 2 ^ (-q).toNat) ∨
+       (0 < q ∧
+        (∀ m' e' : Nat, m' < 2 ^ ((fmtOf d).mbits + 1) →
+          dist (mant * 2 ^ q.toNat) x.natAbs ≤ dist (m' * 2 ^ e') x.natAbs) ∧
+        (∀ m' k : Nat, m' < 2 ^ ((fmtOf d).mbits + 1) →
+          m' ≤ x.natAbs * 2 ^ k ∧ dist (mant * 2 ^ q.toNat) x.natAbs * 2 ^ k ≤ x.natAbs * 2 ^ k - m') ∧
+        dist (mant * 2 ^ q.toNat) x.natAbs ≤ x.natAbs)) := by
+  by_cases hL : (fmtOf d).mbits + 1 < bitLen x.natAbs
+  · obtain ⟨mant, hr, h1, h2⟩ := convert_int_to_float_nearest s d x r hs hd hx h hL
+    refine ⟨mant, _, hr, Or.inr ⟨by omega, ?_, ?_, ?_⟩⟩
+    · simpa using h1
+    · simpa using h2
+    · have := h1 0 0 (Nat.pos_of_ne_zero (by simp))
+      simpa [dist] using this
+  · obtain ⟨mant, q, hr, hsmall, -⟩ := convert_int_to_float s d x r hs hd hx h
+    exact ⟨mant, q, hr, Or.inl (hsmall (by omega))⟩
+
 /-- float sources: the only implicit conversions are the identity and `Float → Double`, and both
 return the very same number (`Fl` carries the exact value) -/
 theorem convert_float_source (s d : NT) (x : Fl) (hs : s.isFloat = true) :
